@@ -367,7 +367,7 @@ func (w *World) Exec(a Action) {
 				w.checkSupply()
 			case "queries":
 				w.checkQueries()
-			case "general":
+			case "general", "rewards":
 				w.checkLiveness()
 			}
 		}
